@@ -339,15 +339,9 @@ func enumerate(thorough bool, emit func(*Case)) {
 	// ---- part "chain": two tunnels, the relay re-encrypts from one to the other
 	type pair struct{ i, j int }
 	var pairs []pair
-	if thorough {
-		for i := 0; i < 6; i++ {
-			for j := 0; j < 6; j++ {
-				pairs = append(pairs, pair{i, j})
-			}
-		}
-	} else {
-		for i := 0; i < 6; i++ {
-			pairs = append(pairs, pair{i, (i + 1) % 6}, pair{i, (i + 3) % 6})
+	for i := 0; i < 6; i++ {
+		for j := 0; j < 6; j++ {
+			pairs = append(pairs, pair{i, j})
 		}
 	}
 	chainSeqs := seqs([]int{1, 4096, 65535, 65536, 70000}, 1)
